@@ -64,3 +64,38 @@ Fixpoint replay_prefix (w : ws) (ops : list opobs) : bool :=
       tree_agrees w' (o_after op) && replay_prefix w' ops'
   end.
 Definition check_case_prefix (c : ws * list opobs) : bool := replay_prefix (fst c) (snd c).
+
+(* ---- the step that produces the recomputed identity (C20, loader half): the definitions a real
+   submit wrote to params.json, loaded by the model's loader (model/Serial.v) with the class table
+   reflected from the real classes after @deprecate, identified by the model (model/Hash.v) with
+   H := SHA-256 - against what the real load_job + identifier answered for that file, and against the
+   identity of the same graph written with the replacement classes (the d_recomp given above).     *)
+From XV Require Import core.Value core.Sha256 model.Hash model.Serial.
+
+Record lobs := {
+  l_classes : classes;                 (* the classes as they are now (reflection of the real ObjectTypes) *)
+  l_heap : heap;                       (* the submitted graph (index space of the definitions) *)
+  l_defs : list def;                   (* "objects" of params.json, over heap indices *)
+  l_root : nat;
+  l_real : option (bytes * bytes);     (* (type identifier, identifier) answered by the real loader; None: it failed *)
+  l_repl : bytes * bytes }.            (* identity of the replacement graph (real code, no loading involved) *)
+
+Definition pair_eqb (a b : bytes * bytes) : bool := bytes_eqb (fst a) (fst b) && bytes_eqb (snd a) (snd b).
+
+Definition load_agrees (fixmeta : bool) (l : lobs) : bool :=
+  let m := recompute sha256 (l_classes l) fixmeta (2 * hash_fuel (l_heap l) + 16) (l_heap l) (l_defs l) (l_root l) in
+  match m, l_real l with
+  | Some a, Some b => pair_eqb a b
+  | None, None => true
+  | _, _ => false
+  end.
+
+Definition check_load (l : lobs) : bool :=
+  load_agrees true l &&
+  match recompute sha256 (l_classes l) true (2 * hash_fuel (l_heap l) + 16) (l_heap l) (l_defs l) (l_root l) with
+  | Some a => pair_eqb a (l_repl l)
+  | None => true
+  end.
+
+(* diagnostic only: does the real answer match a loader that restores only a truthy meta flag? *)
+Definition check_load_truthy (l : lobs) : bool := load_agrees false l.
